@@ -104,6 +104,9 @@ func NewRouter(doc *openapi3.T) (routers.Router, error) {
 
 // FindRoute extracts the route and parameters of an http.Request
 func (r *Router) FindRoute(req *http.Request) (*routers.Route, map[string]string, error) {
+	// a path that matches with another method only is reported once every route was tried: a later
+	// (templated) path may declare the method
+	methodMismatch := false
 	for i, m := range r.muxes {
 		var match mux.RouteMatch
 		if m.muxRoute.Match(req, &match) {
@@ -122,9 +125,12 @@ func (r *Router) FindRoute(req *http.Request) (*routers.Route, map[string]string
 		switch match.MatchErr {
 		case nil:
 		case mux.ErrMethodMismatch:
-			return nil, nil, routers.ErrMethodNotAllowed
+			methodMismatch = true
 		default: // What then?
 		}
+	}
+	if methodMismatch {
+		return nil, nil, routers.ErrMethodNotAllowed
 	}
 	return nil, nil, routers.ErrPathNotFound
 }
